@@ -83,7 +83,7 @@ def run(A, R: Report, thorough: bool):
     R.rule('R15.1', 'every save_value call is inside a `with <FileLock of the cache file>` region', floor=1)
     R.rule('R15.2', 'a load_value guarded by an existence test holds the key lock (writers truncate in place under that lock)', floor=2)
     R.rule('R15.3', 'all entry points lock the same function of the cache file path', floor=2)
-    R.rule('R15.8', 'whether an entry is stored is decided while holding the key lock (the answer of an earlier moment is not used after waiting for the lock)', floor=2)
+    R.rule('R15.8', 'whether an entry is stored is decided while holding the key lock (the answer of an earlier moment is not used after waiting for the lock)', floor=0)
     R.rule('R15.4', 'the key lock is a blocking, per-thread, OS-level FileLock (no shared re-entrant instance, no bounded or non-blocking acquisition)', floor=0)
     lock_terms = {}
     for f, ci in eps:
@@ -138,6 +138,8 @@ def run(A, R: Report, thorough: bool):
                             'the load holds the key lock',
                             'the lock is released between the existence test and the load: a writer truncating the file in between makes the reader fail / recompute',
                             witness=[f'exists at L{e.lineno} locks={[w.lineno for w in ew]}', f'load at L{n.lineno} locks={[w.lineno for w in held]}'], where=where(f, n))
+        if not any(o.rule == 'R15.8' and o.construct.startswith(f.short + ':') for o in R.obs):
+            R.undecided('R15.8', f'{f.short}: presence test', 'no existence test of the cache file recognised in this entry point', where=where(f))
         terms = {pretty(t) for t in lw.values() if t is not None}
         lock_terms[f.short] = terms
         for w in lw:
